@@ -101,6 +101,11 @@ def run(M, rep, tier, only=None):
     n6 = stateless.run(M, rep, R6, only_classes=set(CONTAINER_CLASSES) | {"H5Group"})
     if not n6:
         rep.ok(R6, "containers", "no instance attribute is written outside the constructors")
+    R7 = rep.rule("C03.R7", "membership of an entity agrees with lookup by id (decided by the entity's id, not by its name alone)", floor=1,
+                  technique="dependency of every True-answering path on the item's id (shared with C05.R2)")
+    from .c05 import container_identity
+    nctx7 = Ctx(M, coarse=False)
+    container_identity(M, rep, R7, nctx7, nctx7)
 
     # ---------------------------------------------------------------- R1
     file_aliases(ctx)
